@@ -24,6 +24,12 @@ CLAIMS = {
             'mode is OnlyAuthenticatedData and only the two setters change it; the CLI enables the unauthenticated mode only on the true edge of '
             'the --allow-unauthenticated-data flag (declared SetTrue); the constructor and the wrong-tag arm are checked for mode respect and a '
             'stop latch (two genuine defects recorded as known findings). Byte-level prefix relations are not decided.'),
+    'C07': (TECH_RULES, '§4 C07',
+            'Decides provenance and shape for all paths: key/nonce of EncryptionConfig and the ephemeral scalar must-derive from an OS-seeded '
+            'ChaCha20Rng; no seeded generator constructor exists in the library crates; every byte transfer of the encryption writer to its inner '
+            'writer is an encrypted buffer or a tag and the layer is stacked whenever ENCRYPT is enabled; the reader accepts a key only from the '
+            'tag-verified Ok(Some) payload of retrieve_key, tries every candidate key, and fails otherwise. Absence of plaintext in the bytes and '
+            'uniqueness of OS randomness are not decided.'),
 }
 
 NOT_APPLICABLE = {
